@@ -328,16 +328,22 @@ pub struct DiffFound {
 
 /// Compile `text` under the two configurations (or, for an in-process class, under `a` only)
 /// and report the violation class, comparing the **full bytes** of the artefacts.
-pub fn compare_program(work: &Work, text: &str, a: Cfg, b: Cfg, reps: u64, tag: &str) -> Result<Option<DiffFound>, String> {
+///
+/// `inproc` selects the oracle: `true` = the in-process comparison (two compilations on different
+/// threads of one child, under `a`); `false` = the cross-process comparison of the first
+/// compilation under `a` with the first compilation under `b` (in-process flags are ignored, so
+/// that a program showing both kinds is attributed to the class that is being replayed).
+pub fn compare_program(work: &Work, text: &str, a: Cfg, b: Cfg, reps: u64, tag: &str, inproc: bool) -> Result<Option<DiffFound>, String> {
     let f = work.dir.join(format!("{tag}.dfir"));
     std::fs::write(&f, format!("@@@PROGRAM 0\n{text}")).map_err(|e| e.to_string())?;
     let child = bin("compile_dump_dfir");
     let fs = f.to_str().unwrap_or("");
-    let reps_s = reps.to_string();
+    let reps_s = if inproc { reps.to_string() } else { "0".to_string() };
     let oa = run_child(&child, &[fs, "--full", "--reps", &reps_s], a, &[])?;
     let (pa, _) = parse_plines(&oa)?;
     let la = pa.get(&0).ok_or("child printed no P line")?;
-    if let Some(r) = la.inproc.strip_prefix("DIFF:") {
+    if inproc {
+        let Some(r) = la.inproc.strip_prefix("DIFF:") else { return Ok(None) };
         let art = r.split(':').next().unwrap_or("?");
         let (_, sa) = sections(&oa);
         let key = if art == "code" { "pretty" } else { art };
@@ -353,16 +359,9 @@ pub fn compare_program(work: &Work, text: &str, a: Cfg, b: Cfg, reps: u64, tag: 
             detail: format!("two compilations in one process ({}), on different threads, differ in `{art}`: {d}", a.label()),
         }));
     }
-    let ob = run_child(&child, &[fs, "--full", "--reps", &reps_s], b, &[])?;
+    let ob = run_child(&child, &[fs, "--full", "--reps", "0"], b, &[])?;
     let (pb, _) = parse_plines(&ob)?;
-    let lb = pb.get(&0).ok_or("child printed no P line")?;
-    if let Some(r) = lb.inproc.strip_prefix("DIFF:") {
-        let art = r.split(':').next().unwrap_or("?");
-        return Ok(Some(DiffFound {
-            class: format!("dfir/inproc/{art}"),
-            detail: format!("two compilations in one process ({}), on different threads, differ in `{art}`", b.label()),
-        }));
-    }
+    pb.get(&0).ok_or("child printed no P line")?;
     let kind = if a.hash_seed != b.hash_seed {
         "hashseed"
     } else if a.aslr != b.aslr {
@@ -399,7 +398,7 @@ fn same_class(work: &Work, text: &str, a: Cfg, b: Cfg, reps: u64, class: &str, t
     // an ASLR-induced difference is not owned by a seed: retry a few times
     let attempts = if class.contains("/aslr/") || class.contains("/sameconfig/") { 6 } else { 1 };
     for _ in 0..attempts {
-        if let Some(d) = compare_program(work, text, a, b, reps, tag)? {
+        if let Some(d) = compare_program(work, text, a, b, reps, tag, class.contains("/inproc/"))? {
             if d.class == class {
                 return Ok(true);
             }
@@ -555,7 +554,7 @@ pub fn do_replay(path: &Path) -> i32 {
     let attempts = if expect.contains("/aslr/") || expect.contains("/sameconfig/") { 16 } else { 1 };
     let mut found = None;
     for _ in 0..attempts {
-        match compare_program(&work, &text, a, b, reps, "replay") {
+        match compare_program(&work, &text, a, b, reps, "replay", expect.contains("/inproc/")) {
             Ok(Some(d)) => {
                 found = Some(d);
                 break;
@@ -596,6 +595,16 @@ fn ensure_built() -> Result<(), String> {
 
 // ---------------------------------------------------------------------------------------------
 // The check
+
+/// Remember, per violation class, the smallest program showing it (cheapest to minimise).
+fn keep_smallest<'a>(found: &mut BTreeMap<String, (&'a Prog, Cfg, Cfg)>, class: String, p: &'a Prog, a: Cfg, b: Cfg) {
+    match found.get(&class) {
+        Some((q, _, _)) if q.stmts.len() <= p.stmts.len() => {}
+        _ => {
+            found.insert(class, (p, a, b));
+        }
+    }
+}
 
 pub fn hash_seed_for(root: u64, i: u64) -> u64 {
     // 48-bit seeds keep the replay files readable; 0 is reserved for "first"
@@ -759,7 +768,7 @@ pub fn do_check(args: &Args) -> i32 {
             let l = &lines[c][&p.idx];
             if let Some(r) = l.inproc.strip_prefix("DIFF:") {
                 let art = r.split(':').next().unwrap_or("?");
-                found.entry(format!("dfir/inproc/{art}")).or_insert((p, *cfg, *cfg));
+                keep_smallest(&mut found, format!("dfir/inproc/{art}"), p, *cfg, *cfg);
                 diff_programs.insert(p.idx);
             }
             if c == 0 {
@@ -767,20 +776,20 @@ pub fn do_check(args: &Args) -> i32 {
             }
             if c == last {
                 if let Some(art) = first_diff(l0, l) {
-                    found.entry(format!("dfir/sameconfig/{art}")).or_insert((p, cfgs[0], *cfg));
+                    keep_smallest(&mut found, format!("dfir/sameconfig/{art}"), p, cfgs[0], *cfg);
                     diff_programs.insert(p.idx);
                 }
             } else if c == 1 {
                 // same hash seed, ASLR on vs off
                 if let Some(art) = first_diff(l0, l) {
-                    found.entry(format!("dfir/aslr/{art}")).or_insert((p, cfgs[0], *cfg));
+                    keep_smallest(&mut found, format!("dfir/aslr/{art}"), p, cfgs[0], *cfg);
                     diff_programs.insert(p.idx);
                 }
             } else {
                 // other hash seed: compare with hash seed 0 under the same ASLR setting
                 let r = if cfg.aslr { 1 } else { 0 };
                 if let Some(art) = first_diff(&lines[r][&p.idx], l) {
-                    found.entry(format!("dfir/hashseed/{art}")).or_insert((p, cfgs[r], *cfg));
+                    keep_smallest(&mut found, format!("dfir/hashseed/{art}"), p, cfgs[r], *cfg);
                     diff_programs.insert(p.idx);
                 }
             }
@@ -820,7 +829,7 @@ pub fn do_check(args: &Args) -> i32 {
         }
         let (min, tests) = minimise(&work, &p.stmts, *a, *b, reps, class);
         let text: String = min.iter().map(|s| format!("{s}\n")).collect();
-        let d = match compare_program(&work, &text, *a, *b, reps, "final") {
+        let d = match compare_program(&work, &text, *a, *b, reps, "final", class.contains("/inproc/")) {
             Ok(Some(d)) if d.class == *class => d,
             _ => DiffFound { class: class.clone(), detail: String::new() },
         };
@@ -881,9 +890,11 @@ pub fn do_check(args: &Args) -> i32 {
         "seed": args.seed,
         "level": "exploration",
         "coverage": {
-            "evaluations": evaluations,
+            "evaluations": evaluations + hydro["evaluations"].as_u64().unwrap_or(0),
+            "dfir_evaluations": evaluations,
+            "hydro_evaluations": hydro["evaluations"].as_u64().unwrap_or(0),
             "distinct_nontrivial": nontrivial.len(),
-            "rule": "DFIR programs are generated from VERIF_SEED by a typed grammar over the operator catalogue (sources, unary chains, tee/union with 2-6 legs, join/cross_join/anti_join/difference/zip/chain/cross_singleton/defer_signal, unzip/partition/demux_enum/state, fold/reduce/*_keyed, singleton()/optional()/handoff() with #refs and access groups, defer_tick cycles, 7 loop-block templates, shuffled statement order). One evaluation = one program compiled by the real dfir_lang pipeline in one child process under one (hash seed, ASLR) configuration (each child additionally recompiles it on a fresh thread with new RandomState keys and compares bytes in-process); all configurations of a program must agree byte-for-byte on graph JSON, surface syntax, mermaid and prettyplease'd code (digest = length + 128-bit hash over the bytes; full texts are compared again when a digest differs). distinct_nontrivial = programs distinct by text hash that compiled successfully and contain at least one multi-input or multi-output operator.",
+            "rule": "DFIR programs are generated from VERIF_SEED by a typed grammar over the operator catalogue (sources, unary chains, tee/union with 2-6 legs, join/cross_join/anti_join/difference/zip/chain/cross_singleton/defer_signal, unzip/partition/demux_enum/state, fold/reduce/*_keyed, singleton()/optional()/handoff() with #refs and access groups, defer_tick cycles, 7 loop-block templates, shuffled statement order). One evaluation = one program compiled by the real dfir_lang pipeline in one child process under one (hash seed, ASLR) configuration (each child additionally recompiles it on a fresh thread with new RandomState keys and compares bytes in-process); all configurations of a program must agree byte-for-byte on graph JSON, surface syntax, mermaid and prettyplease'd code (digest = length + 128-bit hash over the bytes; full texts are compared again when a digest differs). distinct_nontrivial = DFIR programs distinct by text hash that compiled successfully and contain at least one multi-input or multi-output operator (Hydro flows are not counted into it). Hydro leg: every flow of a fixed corpus (hydro_test's embedded/local/cluster flows incl. two-phase commit and Paxos) is built by hydro_lang in a child per configuration and its IR text, per-location DFIR (mermaid/surface/JSON/tokens) and generate_embedded code are compared the same way; evaluations = dfir_evaluations + hydro_evaluations.",
             "samples": samples,
             "exhaustive": false,
             "programs_generated": n_prog,
@@ -925,8 +936,8 @@ pub fn do_check(args: &Args) -> i32 {
         return 2;
     }
     println!(
-        "done property={PROP} programs={} configurations={} evaluations={} nontrivial_distinct={} pipeline_runs={} wall={:.1}s violations={}",
-        progs.len(), cfgs.len(), evaluations, nontrivial.len(), pipeline_runs, wall, reported
+        "done property={PROP} programs={} configurations={} evaluations={} (dfir {} + hydro {}) nontrivial_distinct={} pipeline_runs={} wall={:.1}s violations={}",
+        progs.len(), cfgs.len(), evaluations + hydro["evaluations"].as_u64().unwrap_or(0), evaluations, hydro["evaluations"].as_u64().unwrap_or(0), nontrivial.len(), pipeline_runs, wall, reported
     );
     if exit == 0 && nontrivial.len() < 2 {
         eprintln!("HARNESS: fewer than 2 distinct non-trivial programs");
